@@ -147,7 +147,7 @@ def ATAN2(x_num, y_num):
     y_num = utils.parse_number(y_num)
     if isinstance(y_num, error.XLError):
         return y_num
-    if y_num == 0:
+    if x_num == 0 and y_num == 0:
         return error.DIV_ZERO
     return math.atan2(y_num, x_num)
 
